@@ -29,6 +29,20 @@ pub struct Spec {
     pub terminals: Vec<String>,
     pub nts: Vec<Nt>,
     pub has_recovery: bool,
+    /// built-in lexer only: terminal index -> (regex, sample text); other terminals are literals
+    pub regex: Vec<(usize, String, String)>,
+    /// some regex terminal matches the empty string (the lexer then never reports InvalidToken)
+    pub empty_match: bool,
+}
+
+impl Spec {
+    /// text of terminal `t` as it appears in an input string for the built-in lexer
+    pub fn sample(&self, t: usize) -> &str {
+        if let Some((_, _, s)) = self.regex.iter().find(|(i, _, _)| *i == t) {
+            return s.as_str();
+        }
+        self.terminals.get(t).map(|x| x.as_str()).unwrap_or("@")
+    }
 }
 
 /// One compiled variant of a spec.
@@ -61,11 +75,13 @@ struct B {
     nts: Vec<Nt>,
     next_id: u32,
     rec: bool,
+    regex: Vec<(usize, String, String)>,
+    empty_match: bool,
 }
 
 impl B {
     fn new(name: &str) -> B {
-        B { name: name.to_string(), terms: vec![], nts: vec![], next_id: 1, rec: false }
+        B { name: name.to_string(), terms: vec![], nts: vec![], next_id: 1, rec: false, regex: vec![], empty_match: false }
     }
     fn nt(&mut self, name: &str, public: bool, inline: bool) -> usize {
         self.nts.push(Nt { name: name.to_string(), public, inline, prods: vec![] });
@@ -93,8 +109,17 @@ impl B {
         self.next_id += 1;
         self.nts[nt].prods.push(Prod { id, syms, fallible });
     }
+    /// declare terminal `name` as a regex for built-in-lexer variants
+    fn rx(&mut self, name: &str, regex: &str, sample: &str, matches_empty: bool) {
+        let i = match t(&mut self.terms, name) {
+            Sym::T(i) => i,
+            _ => unreachable!(),
+        };
+        self.regex.push((i, regex.to_string(), sample.to_string()));
+        self.empty_match |= matches_empty;
+    }
     fn done(self) -> Spec {
-        Spec { name: self.name, terminals: self.terms, nts: self.nts, has_recovery: self.rec }
+        Spec { name: self.name, terminals: self.terms, nts: self.nts, has_recovery: self.rec, regex: self.regex, empty_match: self.empty_match }
     }
 }
 
@@ -280,6 +305,50 @@ fn hand_specs() -> Vec<Spec> {
         v.push(b.done());
     }
     {
+        // an empty production reduced on a merged lookahead set: the state after "e" is shared by a
+        // context where end of input may follow and one where it may not
+        let mut b = B::new("mergeopt");
+        let s2 = b.nt("Pick", true, false);
+        let e = b.nt("Body", false, false);
+        let o = b.nt("Opt", false, false);
+        b.p(s2, "a Body");
+        b.p(s2, "b Body c");
+        b.p(e, "e Opt");
+        b.p(e, "e x y");
+        b.p(o, "");
+        b.p(o, "x");
+        v.push(b.done());
+    }
+    {
+        // the same with a nullable list and two nested contexts
+        let mut b = B::new("mergelist");
+        let s2 = b.nt("Ctx", true, false);
+        let l = b.nt("Tailx", false, false);
+        b.p(s2, "a n Tailx");
+        b.p(s2, "b n Tailx c");
+        b.p(s2, "( Ctx ) Tailx d");
+        b.p(l, "");
+        b.p(l, "Tailx x ?");
+        v.push(b.done());
+    }
+    {
+        // regex terminals for the built-in lexer: numbers, identifiers next to keyword literals, and a
+        // terminal that can match the empty string (in a position where it cannot repeat)
+        let mut b = B::new("regex");
+        b.rx("num", "[0-9]+", "42", false);
+        b.rx("word", "[a-z]*", "abc", true);
+        b.rx("str", "\\x22[^\\x22]*\\x22", "\"s t\"", false);
+        let s2 = b.nt("Bind", true, false);
+        let vnt = b.nt("Valx", false, false);
+        b.p(s2, "LET word = Valx ; ?");
+        b.p(s2, "SHOW Valx");
+        b.p(vnt, "num");
+        b.p(vnt, "str");
+        b.p(vnt, "( Valx )");
+        b.p(vnt, "Valx + num ?");
+        v.push(b.done());
+    }
+    {
         // nullable start symbol: the empty input is a sentence, and so is every prefix that ends a list
         let mut b = B::new("optlist");
         let s2 = b.nt("Elems", true, false);
@@ -352,7 +421,7 @@ fn generated_specs(count: usize) -> Vec<Spec> {
             nts[1].public = true;
             nts[1].inline = false;
         }
-        out.push(Spec { name: format!("gen{gi}"), terminals: terms, nts, has_recovery: false });
+        out.push(Spec { name: format!("gen{gi}"), terminals: terms, nts, has_recovery: false, regex: vec![], empty_match: false });
     }
     out
 }
@@ -386,10 +455,10 @@ pub fn all_variants(specs: &[Spec]) -> Vec<Variant> {
             v.push(Variant { spec: si, module: format!("{base}_ascnoloc"), ascent: true, lalr: false, builtin: false, loc: 2 });
         }
         // built-in lexer
-        if si % 2 == 1 || si < 4 {
+        if si % 2 == 1 || si < 4 || !s.regex.is_empty() {
             v.push(Variant { spec: si, module: format!("{base}_lex"), ascent: false, lalr: false, builtin: true, loc: 0 });
         }
-        if si % 4 == 0 && !s.has_recovery {
+        if (si % 4 == 0 || !s.regex.is_empty()) && !s.has_recovery {
             v.push(Variant { spec: si, module: format!("{base}_lexasc"), ascent: true, lalr: false, builtin: true, loc: 0 });
         }
     }
@@ -447,7 +516,12 @@ pub fn render(spec: &Spec, var: &Variant) -> String {
             let mut line = String::from("   ");
             for (k, s) in p.syms.iter().enumerate() {
                 match s {
-                    Sym::T(i) => line.push_str(&format!(" {}", rust_string(&spec.terminals[*i]))),
+                    Sym::T(i) => {
+                        match spec.regex.iter().find(|(j, _, _)| j == i) {
+                            Some((_, re, _)) if var.builtin => line.push_str(&format!(" r\"{re}\"")),
+                            _ => line.push_str(&format!(" {}", rust_string(&spec.terminals[*i]))),
+                        }
+                    }
                     Sym::N(i) => {
                         line.push_str(&format!(" <v{k}:{}>", spec.nts[*i].name));
                         names.push(format!("v{k}"));
